@@ -99,14 +99,19 @@ class AsyncRun:
 
     flavour = "async"
 
-    def __init__(self, fmt, initial_fs=None):
+    def __init__(self, fmt, initial_fs=None, kind="serial"):
         from mysensors.gateway_serial import AsyncSerialGateway
+        from mysensors.gateway_tcp import AsyncTCPGateway
 
         install_shims()
         self.fmt = fmt
         self.dir = fresh("c15-async")
         self.loop = VLoop()
-        self.gw = AsyncSerialGateway("/dev/verif", persistence=True, persistence_file=os.path.join(self.dir, f"p.{fmt}"), protocol_version="2.2")
+        if kind == "tcp":
+            # the link of this flavour is a plain asyncio socket transport (no .serial attribute)
+            self.gw = AsyncTCPGateway("127.0.0.1", persistence=True, persistence_file=os.path.join(self.dir, f"p.{fmt}"), protocol_version="2.2")
+        else:
+            self.gw = AsyncSerialGateway("/dev/verif", persistence=True, persistence_file=os.path.join(self.dir, f"p.{fmt}"), protocol_version="2.2")
         self.start_task = self.loop.start(self.gw.start_persistence())
         self.loop.complete_executor(0)  # safe_load_sensors
         if initial_fs is not None:
